@@ -27,6 +27,9 @@ const c19Secret = "SENTINEL-7f3a9c-do-not-serve"
 
 type c19Job struct {
 	Names []string `json:"names"`
+	// KeepState: the removing operations (delete/remove) are left out, so that what the adding operations put into
+	// the server's memory is still there when the graceful shutdown flushes it
+	KeepState bool `json:"keepState,omitempty"`
 }
 
 func c19Atoms() []string {
@@ -274,6 +277,9 @@ func c19Run(w *kernel.Worker, j *c19Job, rep *kernel.Report) (*Fail, error) {
 		name := strings.ReplaceAll(rawName, "@ABS@", strings.TrimSuffix(w.Dir, "/"))
 		special := strings.ContainsAny(rawName, "/\\%.~") || strings.Contains(rawName, "..")
 		for _, op := range c19Ops() {
+			if j.KeepState && (strings.Contains(op.Name, "remove") || strings.Contains(op.Name, "delete")) {
+				continue
+			}
 			body, err := op.Do(w, name)
 			if err != nil {
 				if d, ok := err.(*kernel.Died); ok {
@@ -370,7 +376,7 @@ func C19() int {
 	rep.Rule = "all names of ≤ n atoms over {a, .., ., /, \\, %2e%2e, %2f, ../, x.csv, outside, ~, victim} plus targeted escapes (1–6 levels of ../ towards a sentinel directory, " +
 		"encoded and backslash variants, absolute paths, 300 characters, 40 levels) × 25 operations that derive a path from request data (lookup upload/get/delete, inputlookup, index name of bulk / single-document / HEC / OTLP-logs ingest + rotation, alias removal, " +
 		"PUT/DELETE index, search index name, alias add, dashboard create/get/update/delete, folder create/get, saved query save/get/delete, metric name + tag value), sent over HTTP to the booted " +
-		"server so that route parameters pass through the real routers. After every operation the tree outside data/ and logs/ must be unchanged and no response may contain the sentinel's content. " +
+		"server so that route parameters pass through the real routers. After every operation, and after a graceful shutdown at the end of every chunk of names (each chunk once with all operations and once without the removing ones, so that added state is still in memory), the tree outside data/ and logs/ must be unchanged and no response may contain the sentinel's content. " +
 		"non-trivial = (operation, name) where the name contains a separator, dot-dot, ~ or an encoding atom"
 	rep.Assume = []string{"the worker directory is laid out as data/ (data dir), logs/ (log dir), outside/ (sentinels) and the process cwd; defaultDBs/ (cwd-relative, written by the dashboard code itself) is excluded",
 		"scroll ids and tenant ids are not client-controlled in this tree's routes and are not driven"}
@@ -389,10 +395,11 @@ func C19() int {
 					e = len(names)
 				}
 				emit(c19Job{Names: names[i:e]})
+				emit(c19Job{Names: names[i:e], KeepState: true})
 			}
 		},
 		Run:        c19Run,
-		Key:        func(j *c19Job) string { return jstr(j.Names) },
+		Key:        func(j *c19Job) string { return jstr(j) },
 		Nontrivial: func(j *c19Job) bool { return false },
 	}
 	d.Drive()
